@@ -156,6 +156,7 @@ class Sim:
         self.pending_reply = None
         self.neg_frames = []
         self.neg_usb = []
+        self.side = []
         self.st_failed = 0
         self.executed = []
         self.drain_tail = 3
@@ -169,8 +170,7 @@ class Sim:
         self._saved_N = rd._nr_of_retries
         rd._nr_of_retries = case['N']
         try:
-            self.cr = crz.Crazyradio(device=FakeDev(self))
-            self.tap = RadioTap(self.cr, self)
+            self._make_radio(crz)
             self.drv = rd.RadioDriver()
             self.stats = []
             self.stats_cb = (lambda d: self.stats.append(dict(d))) if case.get('stats') else None
@@ -184,6 +184,15 @@ class Sim:
             raise
 
     URI = 'radio://0/80/2M'
+
+    def _make_radio(self, crz):
+        """the radio object RadioDriver.connect() gets from RadioManager.open(): here a real Crazyradio on a fake
+        USB device, behind a recording tap (c01_shared.SharedSim puts the real _SharedRadio layer in between)"""
+        self.cr = crz.Crazyradio(device=FakeDev(self))
+        self.tap = RadioTap(self.cr, self)
+
+    def _cleanup(self):
+        pass
 
     def _patched(self, fn):
         """run fn with RadioManager.open giving the tap (no USB look-up) and _RadioDriverThread.start doing nothing
@@ -314,35 +323,12 @@ class Sim:
             raise ValueError('bad event %r' % (e,))
         self._close_event()
 
-    def on_write(self, data):
-        if isinstance(data, tuple):                  # negotiation attempt
-            frame = list(data)
-            o = self.negs.pop(0) if self.negs else 'U'
-            self.n_neg += 1
-            if o == 'U':
-                self.pending_reply = [0]
-            elif o == 'A':
-                self.peer.receive(frame, [])
-                self.pending_reply = [0]
-            elif o == 'O':
-                self.pending_reply = [1] + self.peer.receive(frame, [])
-            elif o[0] == 'W':                        # raw dongle answer (host-only cases)
-                self.pending_reply = o[1]
-                if o[1] is None:
-                    raise self.usb_error('scripted usb error')
-            else:
-                self.peer.receive(frame, [])
-                if o[1]:
-                    self.pending_reply = [1] + list(o[2])
-                else:
-                    # a non-acked answer that still carries bytes: status with retry bits only
-                    self.pending_reply = [0x30] + list(o[2])
-            self.neg_frames.append(frame)
-            self.neg_usb.append(None if self.pending_reply is None else list(self.pending_reply))
-            return
-        if self.open_tx:
-            self._close_event()
-            self.open_tx = False
+    def _deliver(self, frame, fill):
+        """the frame reaches whoever listens; base harness: the link's own peer.  None = nobody there"""
+        return self.peer.receive(frame, fill)
+
+    def _between(self):
+        """the scripted events up to the next transmission (application calls, firmware queueing, drain expansion)"""
         while self.evs and self.evs[0][0] not in ('T', 'W', 'N', 'E'):
             if self.evs[0][0] == 'D':                # drain: expanded here into explicit events
                 if self.drain_budget is None:        # a link that does not move (no safelink) must not loop
@@ -360,8 +346,44 @@ class Sim:
                     self.evs[0:1] = [['R'] for _ in range(self.drv.in_queue.qsize() + 1)]
                 continue
             e = self.evs.pop(0)
+            if e[0] in ('SC', 'SS', 'BS'):           # somebody else uses the shared dongle (c01_shared.py)
+                self.side.append(e)
+                self._side_event(e)
+                continue
             self.executed.append(e)
             self._app_event(e)
+
+    def on_write(self, data):
+        if isinstance(data, tuple):                  # negotiation attempt
+            frame = list(data)
+            o = self.negs.pop(0) if self.negs else 'U'
+            self.n_neg += 1
+            if o == 'U':
+                self.pending_reply = [0]
+            elif o == 'A':
+                self._deliver(frame, [])
+                self.pending_reply = [0]
+            elif o == 'O':
+                r = self._deliver(frame, [])
+                self.pending_reply = [0] if r is None else [1] + r
+            elif o[0] == 'W':                        # raw dongle answer (host-only cases)
+                self.pending_reply = o[1]
+                if o[1] is None:
+                    raise self.usb_error('scripted usb error')
+            else:
+                self._deliver(frame, [])
+                if o[1]:
+                    self.pending_reply = [1] + list(o[2])
+                else:
+                    # a non-acked answer that still carries bytes: status with retry bits only
+                    self.pending_reply = [0x30] + list(o[2])
+            self.neg_frames.append(frame)
+            self.neg_usb.append(None if self.pending_reply is None else list(self.pending_reply))
+            return
+        if self.open_tx:
+            self._close_event()
+            self.open_tx = False
+        self._between()
         if not self.evs:
             self.last_write = list(data)
             self.thread._sp = True
@@ -394,10 +416,14 @@ class Sim:
             self.pending_reply = [0, 0x30, 0x10, 0x22][rnd]          # lost: several no-ack status bytes
             self.pending_reply = [self.pending_reply]
         elif o == 'A':
-            self.peer.receive(frame, fill)
+            self._deliver(frame, fill)
             self.pending_reply = [[0, 0x30, 0x10, 0x22][rnd]]
         else:
-            self.pending_reply = [0x01 | (rnd << 4) | ((len(self.tx) & 1) << 1)] + self.peer.receive(frame, fill)
+            r = self._deliver(frame, fill)
+            if r is None:                        # nobody listens where the dongle is tuned to
+                self.pending_reply = [[0, 0x30, 0x10, 0x22][rnd]]
+            else:
+                self.pending_reply = [0x01 | (rnd << 4) | ((len(self.tx) & 1) << 1)] + r
 
     def on_read(self):
         r = self.pending_reply
@@ -436,6 +462,7 @@ class Sim:
             self._run()
         finally:
             rls.time = saved_time
+            self._cleanup()
         return self._finish()
 
     def _run(self):
@@ -559,6 +586,9 @@ class Sim:
 def run_case(case):
     if case.get('threaded'):
         return Sim(case).run_threaded(case['threaded'])
+    if case.get('shared'):
+        from fakes import c01_shared
+        return c01_shared.SharedSim(case).run()
     return Sim(case).run()
 
 
